@@ -25,6 +25,12 @@
 #include <unifex/detail/prologue.hpp>
 
 namespace unifex {
+// declared in <unifex/scheduler_concepts.hpp>; named here so that the sender
+// traits below can tell a replaced get_scheduler query from any other query
+namespace _get_scheduler {
+struct _fn;
+}  // namespace _get_scheduler
+
 namespace _with_query_value {
 
 template <typename CPO, typename Value, typename Receiver>
@@ -138,7 +144,12 @@ public:
 
   static constexpr blocking_kind blocking = sender_traits<Sender>::blocking;
 
+  // A scheduler-affine Sender completes on the scheduler it finds through
+  // get_scheduler(receiver). If that query is the one being replaced, this is
+  // the scheduler given here, not the scheduler of the receiver we are
+  // connected to, so the affinity of Sender does not carry over.
   static constexpr bool is_always_scheduler_affine =
+      !std::is_same_v<CPO, _get_scheduler::_fn> &&
       sender_traits<Sender>::is_always_scheduler_affine;
 
   template <typename Sender2, typename Value2>
